@@ -7,6 +7,8 @@ package service
 
 import (
 	"math/big"
+	"strconv"
+	"sync"
 
 	"github.com/icon-project/goloop/common/errors"
 	"github.com/icon-project/goloop/common/log"
@@ -26,14 +28,25 @@ type vhC10Receipt struct {
 	attempt int
 }
 
+// vhC10WVS mirrors the only part of the real worldVirtualState protocol the
+// dispatcher relies on: Realize() returns after every transaction's Commit().
 type vhC10WVS struct {
 	state.WorldVirtualState
+	wg *sync.WaitGroup
 }
 
 func (w *vhC10WVS) GetSnapshot() state.WorldSnapshot { return nil }
 func (w *vhC10WVS) Reset(state.WorldSnapshot) error  { return nil }
-func (w *vhC10WVS) Commit()                          {}
-func (w *vhC10WVS) Realize()                         {}
+func (w *vhC10WVS) Commit() {
+	if w.wg != nil {
+		w.wg.Done()
+	}
+}
+func (w *vhC10WVS) Realize() {
+	if w.wg != nil {
+		w.wg.Wait()
+	}
+}
 
 type vhC10Ctx struct {
 	contract.Context
@@ -68,14 +81,15 @@ func (w *vhC10WC) SetTransactionInfo(ti *state.TransactionInfo) {}
 func (w *vhC10WC) UpdateSystemInfo()                            {}
 
 func (h *vhC10Handler) Prepare(ctx contract.Context) (state.WorldContext, error) {
-	return &vhC10WC{wvs: &vhC10WVS{}}, nil
+	h.tx.wg.Add(1)
+	return &vhC10WC{wvs: &vhC10WVS{wg: h.tx.wg}}, nil
 }
 func (h *vhC10Handler) Dispose()                                                {}
 func (h *vhC10Handler) Execute(ctx contract.Context, wcs state.WorldSnapshot, estimate bool) (txresult.Receipt, error) {
 	t := h.tx
 	a := t.attempts
 	t.attempts++
-	switch sym.Choose("outcome", 4) {
+	switch sym.Choose("outcome_tx"+strconv.Itoa(t.idx), 4) {
 	case 0:
 		r := &vhC10Receipt{tx: t.idx, attempt: a}
 		t.last = r
@@ -99,6 +113,7 @@ type vhC10Tx struct {
 	retryable int
 	fatal     bool
 	last      *vhC10Receipt
+	wg        *sync.WaitGroup
 }
 
 func (t *vhC10Tx) GetHandler(cm contract.ContractManager) (transaction.Handler, error) {
@@ -142,8 +157,9 @@ func vhC10Setup(n int) (*transition, *vhC10Ctx, *vhC10List, []txresult.Receipt) 
 	t := &transition{transitionContext: &transitionContext{log: lg, plt: &vhC10Platform{}}}
 	ctx := &vhC10Ctx{tl: trace.NewLogger(lg, nil), wvs: &vhC10WVS{}}
 	l := &vhC10List{}
+	wg := new(sync.WaitGroup)
 	for i := 0; i < n; i++ {
-		l.txs = append(l.txs, &vhC10Tx{idx: i})
+		l.txs = append(l.txs, &vhC10Tx{idx: i, wg: wg})
 	}
 	return t, ctx, l, make([]txresult.Receipt, n)
 }
